@@ -14,6 +14,7 @@ type FrameInfo struct {
 	direct map[*ssa.Function]map[string]bool
 	trans  map[*ssa.Function]map[string]bool
 	callees map[*ssa.Function][]*ssa.Function
+	followGo bool
 }
 
 const classTop = "*"
@@ -287,6 +288,12 @@ func (fi *FrameInfo) instrEffects(fr *Frame, in ssa.Instruction, ws map[string]b
 		fi.callEffects(fr, x.Common(), ws, callees)
 	case *ssa.Defer:
 		fi.callEffects(fr, x.Common(), ws, callees)
+	case *ssa.Go:
+		// effect analysis (protects clauses) also follows goroutines started by the function:
+		// what they do happens because of the call
+		if fi.followGo {
+			fi.callEffects(fr, x.Common(), ws, callees)
+		}
 	}
 }
 
